@@ -75,6 +75,10 @@ class RIB:
             self.incoming.families = families
             self.outgoing.families = families
             self.outgoing.delete_cached_family(families)
+            # the RIB of the previous configuration is reused: whether it keeps what it is given is a setting of the
+            # NEW one (adj-rib-out switched on by a reload kept nothing, switched off it went on keeping)
+            self.incoming.cache = adj_rib_in
+            self.outgoing.cache = adj_rib_out
 
             if not adj_rib_out:
                 self.outgoing.clear()
